@@ -63,4 +63,10 @@ def genHeaderConsts : Bool :=
 /-- every slice field a decode fills is reset first (no carry-over through recycled objects). -/
 def genResets : Bool := Gen.messages.all (fun g => g.lists.all (fun l => g.resets.contains l))
 
+/-- every counted-list decode loop stops at the first overrun, so a frame cannot make the
+decoder append more elements than its bytes can hold (bounded work / allocation per frame).
+Rreaddir's entry loop stops at overrun by construction (`decGreedy`). -/
+def genLoopsStop : Bool :=
+  Gen.messages.all (fun g => g.lists.all (fun l => g.stops.contains l || g.payDec == .dirents))
+
 end P9
